@@ -14,6 +14,10 @@ CLAIMS = {
    technique="typestate extraction: abstract path exploration of the thread handlers over the finite (thread_state x event) domain, compared with the documented FSM; error-propagation analysis to main",
    text="Exhaustive over the abstract domain: pre_thread() is explored (thread.c inlined, infrastructure calls non-deterministic) for all 256 value bytes x 6 thread states; accept/reject and the post-state of every accepting path are compared with the documented state machine; thread_set_state's published view (is_running, is_active, state and TID channels) is evaluated for all 6 states; model_ovni_finish is evaluated on all 1- and 2-thread state combinations and its failure is followed call site by call site to main's exit status. Not decided: that the timeline shows the state at every instant (depends on patch-bay propagation, see C06).",
    design_ref="§4 C04"),
+ "C07": dict(
+   technique="typestate extraction: abstract path exploration of body.c over all consistent (state, flags, stack, stack-top) combinations vs. the documented body FSM; who-may-write effect analysis; argument-flow evaluation of flag plumbing, event mapping and channel sets in both task models",
+   text="body_execute/pause/resume/end are explored (utlist macros included) on every consistent abstract state - 4 body states x PAUSE/RESURRECT flags x {no stack, this stack, another stack} x {empty, self alone, self over another, other running relaxed/strict, other paused} - and accept/reject plus the post-state (state, stack binding, new top, iteration) must equal the documented machine; struct body is written only by body.c's five life-cycle functions; create_body's flag mapping is evaluated on all 16 task-flag sets; nOS-V/Nanos6 creation flags, the nOS-V body-id rule, the x/e/p/r -> task_* -> body_* mapping and the running/stopped/switch channel sets and their source fields are evaluated from the code. Not decided: hash-table lookups (task_find/body_find) and list shapes deeper than two bodies.",
+   design_ref="§4 C07"),
  "C08": dict(
    technique="abstract evaluation of chan_push/chan_pop on abstract stacks; enter/leave pairing and injectivity of the constant dispatch tables vs. the catalogue's PAIR macros; typestate evaluation of per-model thread-state guards and end-of-trace lint",
    text="chan_pop/chan_push are explored on abstract stacks (empty, 1, 2, capacity-1, capacity, top equal/different, duplicate flags) and must implement match-the-top / refuse-full-stack exactly; for all 8 models every PAIR_x (and frozen hand-written) enter/leave pair must push and pop the same value on the same channel, and every (channel,value) must have exactly one enter and one leave event (dispatch tables evaluated exactly); every declared event is evaluated under the 6 consistent (running,active,out-of-CPU) thread states against the model's frozen precondition; each model's finish hook is evaluated in linter mode with open regions and its failure followed to main. Not decided: that a value 'means what its name documents' when both sides are swapped consistently.",
